@@ -631,6 +631,14 @@ func (r *Resolver) groupLookup(ctx context.Context, rs *resolveState, req *dns.M
 			// reference and can mutate the ID in place.
 			if shared {
 				resp = resp.Copy()
+				// The shared response echoes the question as the leader's
+				// request spelled it. Callers are grouped by a
+				// case-insensitive key, so a follower may have asked for the
+				// same name in different letter case (0x20 mixing); hand each
+				// caller its own spelling back rather than another client's.
+				if len(resp.Question) == 1 && strings.EqualFold(resp.Question[0].Name, q.Name) {
+					resp.Question[0].Name = q.Name
+				}
 			}
 			resp.Id = req.Id
 		}
